@@ -148,9 +148,13 @@ def _phase_b_main(path, out):
         json.dump(r, f, default=str)
 
 
+XSEED_PROGRAMS = [("TL:5", ["set_index_u"]), ("TL:5", ["sort_u"]), ("TL:5", ["set_index_a"]), ("TL:5", ["sort_a"]), ("TL:4", ["set_index_u", "proj_ab"]),
+                  ("TL:5", ["filt_a_gt2", "set_index_u"]), ("TL:5", ["dropdup_a"]), ("TL:5", ["gb_a_sum_so2"]), ("TL:5", ["merge_T2_inner"]), ("TL:5", ["shuffle_a"])]
+
+
 def evaluate(case):
     """Self-contained round trip (used for replay/minimisation): phase A here, phase B in a
-    brand-new interpreter."""
+    brand-new interpreter (with another PYTHONHASHSEED when the case asks for it)."""
     d = tempfile.mkdtemp(prefix="c16_")
     try:
         a = phase_a(case, d)
@@ -159,9 +163,12 @@ def evaluate(case):
         viols = []
         for i, path in enumerate(a["info"]["paths"]):
             out = os.path.join(d, f"out{i}.json")
+            e = dict(os.environ)
+            if case.get("hashseed") is not None:
+                e["PYTHONHASHSEED"] = str(case["hashseed"])
             subprocess.run([sys.executable, "-W", "ignore", "-c",
                             f"import sys; sys.path.insert(0, {env.VERIF!r}); from checks import c16; c16._phase_b_main({path!r}, {out!r})"],
-                           cwd=env.VERIF, stderr=subprocess.DEVNULL, timeout=300)
+                           cwd=env.VERIF, stderr=subprocess.DEVNULL, timeout=300, env=e)
             if not os.path.exists(out):
                 viols.append({"kind": "phase_b_crashed", "detail": "receiving interpreter produced no output"})
                 continue
@@ -175,8 +182,12 @@ def evaluate(case):
         shutil.rmtree(d, ignore_errors=True)
 
 
+def _evaluate_x(case):
+    return evaluate(case)
+
+
 def key(case):
-    return explore.prog_key({"src": case["src"], "ops": case["ops"]}) + (f"|forms={case['forms']}" if "forms" in case else "")
+    return explore.prog_key({"src": case["src"], "ops": case["ops"]}) + (f"|forms={case['forms']}" if "forms" in case else "") + (f"|hashseed={case['hashseed']}" if case.get("hashseed") is not None else "")
 
 
 def shrink(case):
@@ -248,6 +259,12 @@ def run(ctx):
                     else:
                         fixed.append((item, v))
                 ctx.failures = fixed
+        # receiving interpreters with a different hash seed (brand-new processes), on a table large
+        # enough for data-dependent planning (quantile sampling) to matter
+        xs = [{"src": src, "ops": ops, "hashseed": hs} for src, ops in XSEED_PROGRAMS for hs in (12345, 987654321)]
+        resx = ctx.map(_evaluate_x, xs, chunk=1, fresh=False)
+        ctx.transitions += len(xs)
+        ctx.cov["cross_hashseed_round_trips"] = len(xs)
         ctx.cov["forms_round_tripped"] = nforms
         ctx.assumptions += ["the receiving process is a fork of the pristine parent: same modules imported, no expression ever built, all caches empty",
                             "replays use a brand-new interpreter for the receiving side"]
